@@ -395,8 +395,19 @@ func c05HOpWire(op c05HOp) string {
 		return "10"
 	case "setSharedValues":
 		return wJoin("2", wStrs(c05SharedPristine[:op.A]))
-	case "nested", "setRequest", "setResponse", "setHandler", "poisonQuery":
-		return "5" // nothing that a later request may see happens to the context
+	case "nested":
+		return "5" // nothing happens to the outer context
+	case "setRequest":
+		if op.A == 0 {
+			return "12 9999\x005" // two ops: SetRequest, then the query cache is filled from the new request
+		}
+		return "5\x0012 9998" // two ops: cache filled from the original request, then SetRequest
+	case "poisonQuery":
+		return "13 9997"
+	case "setHandler":
+		return "14 1"
+	case "setResponse":
+		return wJoin("15", wInt(op.A))
 	case "silent":
 		return "11" // like fail for the context: nothing more happens to it
 	}
@@ -407,7 +418,8 @@ func c05Run(ci any) Result {
 	c := ci.(*c05Case)
 	env := c05NewEnv()
 	var routes []rRoute
-	ops := []string{wInt(len(c.Steps))}
+	ops := []string{"<nsteps>"}
+	nsteps := len(c.Steps)
 	var obsParts []string
 	res := Result{}
 	fail := func(s string) {
@@ -447,6 +459,19 @@ func c05Run(ci any) Result {
 				// own and gives it back (Echo.ReleaseContext): whatever it left in it must not reach a request
 				env.borrowContext(reqID)
 				tags = append(tags, "app-borrowed-pooled-context")
+				// the same for the model: Reset(id 7777); SetPath; SetParamNames(6); SetParamValues(6); Set; QueryParam;
+				// SetLogger; Before; WriteHeader(418); Write(8)
+				six := func(p string) []string {
+					var l []string
+					for i := 1; i <= 6; i++ {
+						l = append(l, p+strconv.Itoa(i))
+					}
+					return l
+				}
+				bops := []string{wJoin("3", wStr("/borrowed/:b1/:b2")), wJoin("1", wStrs(six("b"))), wJoin("2", wStrs(six("bv"))),
+					wJoin("0", wInt(reqID%4), "99"), "5", "4 77", "8 0", "6 418", "7 8"}
+				ops = append(ops, "2", "7777", wInt(len(bops))+" "+strings.Join(bops, " "))
+				nsteps++
 			}
 			o, inner = env.serve3(reqID, *s.Req, s.Prog, s.Probe)
 		}
@@ -458,7 +483,7 @@ func c05Run(ci any) Result {
 				tags = append(tags, "spare-slot-probe")
 			}
 			for _, op := range s.Prog {
-				progW = append(progW, c05HOpWire(op))
+				progW = append(progW, strings.Split(c05HOpWire(op), "\x00")...)
 			}
 			ops = append(ops, "0", wInt(reqID), wStr(s.Req.Method), wStr(s.Req.Path), wInt(len(progW))+" "+strings.Join(progW, " "))
 		}
@@ -532,6 +557,7 @@ func c05Run(ci any) Result {
 	if reqID >= 2 {
 		res.Nontrivial = true
 	}
+	ops[0] = wInt(nsteps)
 	res.Ops = strings.Join(ops, " ")
 	res.Obs = strings.Join(obsParts, " ")
 	res.Tags = tags
